@@ -262,8 +262,9 @@ class ListV(Mutable):
 class DictV(Mutable):
     tag = 'dict'
 
-    def __init__(self, pairs):
+    def __init__(self, pairs, default=None):
         self.pairs = list(pairs)    # list of [key V, value V]
+        self.default = default      # 'list' for defaultdict(list)
 
     def lookup(self, kv):
         kk = k(kv)
@@ -318,6 +319,20 @@ class Bound(V):
 
     def __repr__(self):
         return '<bound %s>' % self.func.name
+
+
+class SuperV(V):
+    tag = 'super'
+
+    def __init__(self, obj, after_cls):
+        self.obj = obj
+        self.after = after_cls      # ClassV: method lookup starts after this class in the MRO
+
+    def __deepcopy__(self, memo):
+        return SuperV(copy.deepcopy(self.obj, memo), self.after)
+
+    def key(self):
+        return ('super', k(self.obj))
 
 
 class GenV(Mutable):
@@ -497,6 +512,7 @@ class Interp(object):
         self.opaque = opaque or {}
         self.depth_limit = depth_limit
         self._module_cache = {}
+        self.extern = {'hx:noop': lambda interp, args, kwargs: Const(None)}
         self._err_names = None
         self.trace_count = 0
 
@@ -616,6 +632,8 @@ class Interp(object):
             return self.instantiate(fv, args, kwargs)
         if isinstance(fv, Builtin):
             from . import absmodels
+            if fv.name.startswith('hx:'):
+                return self.extern[fv.name](self, args, kwargs)
             return absmodels.call_builtin(self, fv.name, args, kwargs)
         if isinstance(fv, TypeV):
             from . import absmodels
@@ -701,7 +719,8 @@ class Interp(object):
             raise Raised(Exc('TypeError', 'unexpected keyword %s' % unknown))
         return Frame(vars_, fv.closure, fv.module)
 
-    def instantiate(self, cv, args, kwargs):
+    def instantiate(self, cv, args, kwargs=None):
+        kwargs = kwargs or {}
         obj = Obj(cv, {})
         lm = self.model.lookup_method(cv.module, cv.node, '__init__')
         if lm:
@@ -1022,6 +1041,8 @@ class Interp(object):
         if isinstance(base, Obj):
             if attr in base.attrs:
                 return base.attrs[attr]
+            if attr == '__class__':
+                return base.cls
             bm = self.get_method(base, attr)
             if bm:
                 return bm
@@ -1035,7 +1056,22 @@ class Interp(object):
             if attr in base.attrs:
                 return base.attrs[attr]
             raise Raised(Exc('AttributeError', attr))
+        if isinstance(base, SuperV):
+            mro = self.model.mro(base.obj.cls.module, base.obj.cls.node)
+            seen = False
+            for mm, cc in mro:
+                if seen:
+                    for n in cc.body:
+                        if isinstance(n, ast.FunctionDef) and n.name == attr:
+                            return Bound(base.obj, Func(mm, n))
+                if cc is base.after.node:
+                    seen = True
+            if attr == '__init__':
+                return Builtin('hx:noop')
+            raise Raised(Exc('AttributeError', attr))
         if isinstance(base, ClassV):
+            if attr == '__name__':
+                return Const(base.name)
             lm = self.model.lookup_method(base.module, base.node, attr)
             if lm:
                 return Func(lm[0], lm[2])
@@ -1270,10 +1306,15 @@ class Interp(object):
         if isinstance(e.func, ast.Attribute):
             base = self.expr(e.func.value, fr)
             args, kwargs = self._args(e, fr)
-            if isinstance(base, (ModuleV, Obj, ClassV, TypeV, Builtin)) or (isinstance(base, Func) and e.func.attr in base.attrs):
+            if isinstance(base, (ModuleV, Obj, ClassV, TypeV, Builtin, SuperV)) or (isinstance(base, Func) and e.func.attr in base.attrs):
                 fv = self.getattr(base, e.func.attr, e.func)
                 return self.call(fv, args, kwargs)
             return absmodels.call_method(self, base, e.func.attr, args, kwargs, src(e))
+        if isinstance(e.func, ast.Name) and e.func.id == 'super' and fr.lookup('super') is None:
+            args, kwargs = self._args(e, fr)
+            if len(args) == 2 and isinstance(args[0], ClassV) and isinstance(args[1], Obj):
+                return SuperV(args[1], args[0])
+            raise Unmodelled('super() without arguments')
         fv = self.expr(e.func, fr)
         args, kwargs = self._args(e, fr)
         return self.call(fv, args, kwargs)
